@@ -215,6 +215,199 @@ func feeSpaces(thorough bool, types []string) []chanmc.Space {
 	return out
 }
 
+// breadthSpaces is the type x opener x offerer breadth family: ONE untrimmed
+// HTLC, full interleaving (every asynchronous order of add / sign / revoke /
+// resolve of both sides, ~90 states), on every one of the seven channel types x
+// either opener x offered by the opener (failed malformed) / by the non-opener
+// (settled). The main list reaches the four types outside its quick "full" set
+// (legacy, anchors, lease, taproot staging) only with its last, deviation-bounded
+// 3-HTLC spaces, which a deadline-capped run on a loaded machine does not get to
+// (measured with --cover: no lease / anchors branch entered in 300 s at load 100+).
+func breadthSpaces() []chanmc.Space {
+	var out []chanmc.Space
+	for _, typ := range chanmc.AllTypes {
+		th := chanmc.Thresholds(typ, baseFee, 200, 1300)
+		for _, openerB := range []bool{false, true} {
+			op := 0
+			if openerB {
+				op = 1
+			}
+			out = append(out,
+				chanmc.Space{Dev: -1, P: chanmc.Params{Type: typ, OpenerB: openerB, Script: []chanmc.Intent{{By: 1 - op, Amt: sat(th[1]+th[2], 1), Fate: "settle"}}}},
+				chanmc.Space{Dev: -1, P: chanmc.Params{Type: typ, OpenerB: openerB, Script: []chanmc.Intent{{By: op, Amt: sat(th[0]+th[3], 0), Fate: "malformed"}}}})
+		}
+	}
+	// Two shards of one payment (equal hash and expiry => byte-identical HTLC
+	// scripts, different amounts, the larger first) offered by the same party,
+	// full interleaving (667 states): the duplicate axis of the main list's last,
+	// deviation-bounded spaces, brought forward on four cells (types outside the
+	// quick "full" set first) so that a starved run still has it.
+	for i, c := range []struct {
+		typ     string
+		openerB bool
+		by      int
+	}{{"anchors", true, 1}, {"tweakless", false, 0}, {"lease", false, 1}, {"taproot", true, 0}} {
+		fate := []string{"settle", "fail"}[i%2]
+		out = append(out, chanmc.Space{Dev: -1, P: chanmc.Params{Type: c.typ, OpenerB: c.openerB, Script: []chanmc.Intent{
+			{By: c.by, Amt: sat(300000, 0), Fate: "settle", Dup: 2}, {By: c.by, Amt: sat(100000, 0), Fate: fate, Dup: 2}}}})
+	}
+	return out
+}
+
+// poorSpaces is the single-funder-start family: the non-opener starts with a
+// gross balance of ZERO (what every channel opened without push_msat looks like)
+// and the reserve is 1 sat, so that the only thing between its balance and zero
+// are the dust rules. The opener pays it X, it pays Y back; (X, Y) put the
+// non-opener's balance exactly at / 1 msat below either side's dust LIMIT, i.e.
+// its to_local / to_remote output exists on neither, on one (the lower-dust
+// owner's) or on both commitments, appears with the settle and disappears again
+// with the payment back; Y is attempted in every interleaving, also while the
+// balance is still zero (refused: constraint outcome) - full interleaving.
+// Oracles unchanged: the first-principles tx-output / fee / conservation /
+// exact-balance checks of chanmc already model trimmed balance outputs.
+//
+// Crossing rule: cells = type x opener; quick: 3 types, two of the four
+// profiles per cell (profiles c%4 and (c+1)%4 on cell c, so every profile runs
+// on at least 2 cells incl. both openers); thorough: all 4 profiles on all 14 cells.
+func poorSpaces(thorough bool, types []string) []chanmc.Space {
+	const lo, hi = 200, 1300 // the two dust limits (chanmc defaults A / B)
+	type prof struct {
+		x, y   uint64
+		fx, fy string
+	}
+	profiles := []prof{
+		{sat(lo, 0) - 1, sat(100, 0), "settle", "fail"},    // 199.999 sat: no balance output anywhere; a dust HTLC back
+		{sat(lo, 0), sat(1, 0), "settle", "settle"},        // exactly the lower limit: output on the lower-dust owner's commitment only; 1 sat back trims it again
+		{sat(hi, 0) - 1, sat(hi-lo, 0), "settle", "settle"}, // 1 msat below the higher limit; paying back leaves 199.999 sat
+		{sat(hi, 0), 1, "settle", "malformed"},             // exactly the higher limit: output on both; a 1 msat HTLC back removes it from one while pending
+	}
+	var out []chanmc.Space
+	ci := 0
+	for _, typ := range types {
+		for _, openerB := range []bool{false, true} {
+			op := 0
+			grossA := int64(10 * 100_000_000) // = capacity: B has exactly 0
+			if openerB {
+				op, grossA = 1, -1 // A has exactly 0
+			}
+			for pi, pr := range profiles {
+				if !thorough && !(pi == ci%4 || pi == (ci+1)%4) {
+					continue
+				}
+				out = append(out, chanmc.Space{Dev: -1, P: chanmc.Params{Type: typ, OpenerB: openerB, GrossA: grossA, ReserveSat: 1,
+					Script: []chanmc.Intent{{By: op, Amt: pr.x, Fate: pr.fx}, {By: 1 - op, Amt: pr.y, Fate: pr.fy}}}})
+			}
+			// the same with a second, untrimmed HTLC of the opener in flight (later
+			// failed), so that the balance output comes and goes next to an HTLC
+			// output (anchors / fee of the HTLC output paid by the opener): profiles 1 and 3
+			th := chanmc.Thresholds(typ, baseFee, lo, hi)
+			for _, pi := range []int{1, 3} {
+				// measured: 4.7k states per full space; quick takes four cells
+				// (cell c with c%4 == 0, profile alternating) within 2 deviations of
+				// the eager schedule, thorough every cell within 3
+				dev := 3
+				if !thorough {
+					dev = 2
+					if ci%4 != 0 || (pi == 3) != (ci%8 == 4) {
+						continue
+					}
+				}
+				pr := profiles[pi]
+				out = append(out, chanmc.Space{Dev: dev, P: chanmc.Params{Type: typ, OpenerB: openerB, GrossA: grossA, ReserveSat: 1,
+					Script: []chanmc.Intent{{By: op, Amt: pr.x, Fate: pr.fx}, {By: 1 - op, Amt: pr.y, Fate: pr.fy},
+						{By: op, Amt: sat(th[0]+th[2], 0), Fate: "fail"}}}})
+			}
+			ci++
+		}
+	}
+	return out
+}
+
+// boundSpaces is the channel-bounds family: the defaults of the chanmc fixture
+// (241 HTLCs, max pending = capacity, min HTLC 0, equal reserves) never bind, so
+// validateCommitmentSanity's per-party bound checks always took the same way.
+// Here one party offers two HTLCs (X1 then X2) and ITS bound sits exactly at the
+// boundary, the other party's bounds are different and loose (so a check against
+// the wrong party's config, or against the wrong log counters in one of the four
+// call sites AddHTLC / ReceiveHTLC / SignNextCommitment / ReceiveNewCommitment,
+// gives sender and receiver different verdicts):
+//
+//	n1   max_accepted_htlcs 1 (peer 3): X2 is refused while X1 is still in the evaluated view
+//	p-   max pending X1+X2-1 msat, p= exactly X1+X2 msat (peer: capacity)
+//	m=   htlc_minimum exactly X2 msat, m+ X2+1 msat (peer: 1 msat)
+//
+// Full interleaving (X2 is attempted at every point of X1's life cycle; a refused
+// intent is a constraint outcome and is dropped). Oracle unchanged: whatever the
+// sender's AddHTLC accepted, every Receive*/Sign* of the honest exchange accepts.
+// Quick: 5 letters x offerer {A,B}, type/opener rotating over the 14 cells, plus the
+// x3 letter (see below) on two cells within 2 deviations;
+// thorough: every letter x offerer x 14 cells, plus a third HTLC by the peer
+// within 3 deviations of the eager schedule on one letter per cell.
+func boundSpaces(thorough bool, types []string) []chanmc.Space {
+	x1, x2 := sat(40000, 0), sat(25000, 500)
+	letters := []struct {
+		name string
+		own  chanmc.Bounds
+		peer chanmc.Bounds
+	}{
+		{"n1", chanmc.Bounds{MaxHtlcs: 1}, chanmc.Bounds{MaxHtlcs: 3}},
+		{"p-", chanmc.Bounds{MaxPendingMsat: x1 + x2 - 1}, chanmc.Bounds{}},
+		{"p=", chanmc.Bounds{MaxPendingMsat: x1 + x2}, chanmc.Bounds{MaxPendingMsat: x1}},
+		{"m=", chanmc.Bounds{MinHtlcMsat: x2}, chanmc.Bounds{MinHtlcMsat: 1}},
+		{"m+", chanmc.Bounds{MinHtlcMsat: x2 + 1}, chanmc.Bounds{MinHtlcMsat: 1}},
+	}
+	var out []chanmc.Space
+	ncells := 2 * len(types)
+	mk := func(cell, li, by int, third bool) {
+		typ, openerB := types[(cell%ncells)/2], cell%2 == 1
+		l := letters[li]
+		p := chanmc.Params{Type: typ, OpenerB: openerB, Script: []chanmc.Intent{
+			{By: by, Amt: x1, Fate: "settle"}, {By: by, Amt: x2, Fate: "fail"}}}
+		p.Bounds[by], p.Bounds[1-by] = l.own, l.peer
+		dev := -1
+		if third {
+			// the peer's loose bounds hold for its own offer: x1 passes all of them
+			p.Script = append(p.Script, chanmc.Intent{By: 1 - by, Amt: x1, Fate: "settle"})
+			dev = 3
+		}
+		out = append(out, chanmc.Space{Dev: dev, P: p})
+	}
+	// both directions loaded, the PEER's bounds exactly at what it offers (1 HTLC
+	// of x1 msat) and the offerer's loose: every honest add is within its own
+	// party's bounds, so none may be refused by anybody - unless a count or a sum
+	// leaks from one party's updates into the other's (x3 letter; deviation-bounded)
+	x3 := func(cell, by, dev int) {
+		typ, openerB := types[(cell%ncells)/2], cell%2 == 1
+		p := chanmc.Params{Type: typ, OpenerB: openerB, Script: []chanmc.Intent{
+			{By: by, Amt: x1, Fate: "settle"}, {By: by, Amt: x2, Fate: "fail"}, {By: 1 - by, Amt: x1, Fate: "settle"}}}
+		p.Bounds[by] = chanmc.Bounds{MaxHtlcs: 3}
+		p.Bounds[1-by] = chanmc.Bounds{MaxHtlcs: 1, MaxPendingMsat: x1, MinHtlcMsat: x1}
+		out = append(out, chanmc.Space{Dev: dev, P: p})
+	}
+	if !thorough {
+		for li := range letters {
+			for by := 0; by < 2; by++ {
+				mk(2*li+by+li/3, li, by, false)
+			}
+		}
+		x3(5, 0, 2)
+		x3(8, 1, 2)
+		return out
+	}
+	for cell := 0; cell < ncells; cell++ {
+		x3(cell, cell/2%2, 3)
+	}
+	for cell := 0; cell < ncells; cell++ {
+		for li := range letters {
+			for by := 0; by < 2; by++ {
+				mk(cell, li, by, false)
+			}
+		}
+		mk(cell, cell%len(letters), cell/2%2, true)
+	}
+	return out
+}
+
 // mergeAgg adds b's coverage to a (the exploration of the fee family runs in
 // its own lanes next to the main list, each lane with its own Agg).
 func mergeAgg(a, b *chanmc.Agg) {
@@ -271,12 +464,20 @@ func TestC01(t *testing.T) {
 		ft = chanmc.AllTypes
 	}
 	fee := feeSpaces(run.Thorough(), ft)
+	// the axis-audit families rotate over ALL seven types in both tiers (their
+	// spaces are small), cheapest first, in lanes of their own: a deadline on a
+	// loaded machine then cuts the depth of the main list, not the type breadth
+	axis := breadthSpaces()
+	axis = append(axis, boundSpaces(run.Thorough(), chanmc.AllTypes)...)
+	axis = append(axis, poorSpaces(run.Thorough(), chanmc.AllTypes)...)
 	// development aids: VERIF_C01_FAMILY=main|fee keeps one family, VERIF_C01_MATCH=<s> the spaces whose name contains s
 	switch os.Getenv("VERIF_C01_FAMILY") {
 	case "main":
-		fee = nil
+		fee, axis = nil, nil
 	case "fee":
-		sp = nil
+		sp, axis = nil, nil
+	case "axis":
+		sp, fee = nil, nil
 	}
 	if m := os.Getenv("VERIF_C01_MATCH"); m != "" {
 		filter := func(in []chanmc.Space) (keep []chanmc.Space) {
@@ -287,7 +488,7 @@ func TestC01(t *testing.T) {
 			}
 			return keep
 		}
-		sp, fee = filter(sp), filter(fee)
+		sp, fee, axis = filter(sp), filter(fee), filter(axis)
 	}
 	// The fee family consists of many small spaces (11 .. 3k states), which a
 	// single explore.Run cannot spread over the cores; they run in feeLanes
@@ -315,8 +516,62 @@ func TestC01(t *testing.T) {
 			laneAgg[l] = chanmc.RunSpaces(run, lanes[l], deadline, laneWorkers)
 		}(l)
 	}
+	// The single-funder-start and channel-bounds families (axis audit) are small
+	// spaces too (0.3k .. 1.5k states): two more lanes of their own, cheapest first.
+	const axisLanes = 2
+	axisCost := func(s chanmc.Space) int { // measured: breadth 90, single-funder start 129, bounds 41..667 states; 3-HTLC spaces 1.8k..2.9k
+		c := len(s.P.Script) * 10
+		if s.P.Bounds != ([2]chanmc.Bounds{}) {
+			c++
+		}
+		if len(s.P.Script) == 2 && s.P.Script[0].Dup != 0 {
+			c = 15 // the shard pairs directly after the 1-HTLC spaces
+		}
+		return c
+	}
+	sort.SliceStable(axis, func(i, j int) bool { return axisCost(axis[i]) < axisCost(axis[j]) })
+	alanes := make([][]chanmc.Space, axisLanes)
+	for i, s := range axis {
+		alanes[i%axisLanes] = append(alanes[i%axisLanes], s)
+	}
+	axisLaneAgg := make([]*chanmc.Agg, axisLanes)
+	for l := range alanes {
+		if len(alanes[l]) == 0 {
+			continue
+		}
+		wg.Add(1)
+		go func(l int) {
+			defer wg.Done()
+			axisLaneAgg[l] = chanmc.RunSpaces(run, alanes[l], deadline, laneWorkers)
+		}(l)
+	}
 	agg := chanmc.RunSpaces(run, sp, deadline, 0)
 	wg.Wait()
+	axisAgg := &chanmc.Agg{}
+	var axisRecheck []any
+	for _, la := range axisLaneAgg {
+		if la == nil {
+			continue
+		}
+		mergeAgg(axisAgg, la)
+		if la.Recheck != nil {
+			axisRecheck = append(axisRecheck, la.Recheck)
+		}
+	}
+	axisCells := map[string]int{} // per-cell counts: family letter -> completed spaces
+	for _, ps := range axisAgg.PerSpace {
+		name, _ := ps["space"].(string)
+		k := "single_funder_start"
+		if strings.Contains(name, "/bounds") {
+			k = "bounds"
+		} else if !strings.Contains(name, ",") || strings.Contains(name, "300000000s,") {
+			k = "breadth"
+		}
+		if ps["exhaustive"] == true {
+			axisCells[k+"_completed"]++
+		}
+		axisCells[k+"_spaces"]++
+	}
 	var feeRecheck []any
 	feeAgg := &chanmc.Agg{}
 	for _, la := range laneAgg {
@@ -366,13 +621,15 @@ func TestC01(t *testing.T) {
 	}
 	mainStates, mainSpaces := agg.States, agg.Spaces
 	mergeAgg(agg, feeAgg)
+	mergeAgg(agg, axisAgg)
 	cov := agg.Coverage("state = canonical projection of both real LightningChannels + wires + explorer HTLC table; transition = one lnd API call sequence (AddHTLC/Settle/Fail/UpdateFee/SignNextCommitment or delivery of the head of a FIFO wire into Receive*); every transition runs the sig-verifies, msat-conservation, exact-balance, fee/dust/tx-output oracles on every commitment either side holds; terminal states run the mirror oracle; distinct_nontrivial = distinct canonical states")
 	cov["families"] = map[string]any{
 		"main":          map[string]any{"spaces": mainSpaces, "states": mainStates},
 		"fee_sequences": map[string]any{"spaces": feeAgg.Spaces, "spaces_completed": feeAgg.Complete, "states": feeAgg.States, "transitions": feeAgg.Transitions, "terminal_states": feeAgg.Terminals, "letters": feeLetters, "lanes": feeLanes, "determinism_rechecks": feeRecheck},
+		"axis_audit": map[string]any{"families": "breadth (1 HTLC, 7 types x opener x offerer), bounds (max_accepted_htlcs / max pending / htlc_minimum at the boundary), single_funder_start (non-opener starts at 0, balance outputs at the dust limits)", "spaces": axisAgg.Spaces, "spaces_completed": axisAgg.Complete, "states": axisAgg.States, "transitions": axisAgg.Transitions, "terminal_states": axisAgg.Terminals, "constraint_refusals": axisAgg.Stats.ConstraintNoops.Load(), "cells": axisCells, "lanes": axisLanes, "determinism_rechecks": axisRecheck},
 	}
 	run.Assumptions = append(run.Assumptions,
-		"scripts of at most 3 HTLCs and one fee update; fee-sequence family: at most 3 update_fee over {committed rate, one above, one below} with at most one HTLC; amounts from the dust-straddling alphabet; custom (aux-leaf) channels outside the alphabet",
+		"scripts of at most 3 HTLCs and one fee update; fee-sequence family: at most 3 update_fee over {committed rate, one above, one below} with at most one HTLC; amounts from the dust-straddling alphabet; single-funder-start family: non-opener starts at 0 sat, reserve 1 sat, 2 HTLCs; bounds family: one party's max_accepted_htlcs / max pending / htlc_minimum at the boundary with 2 (+1) HTLCs; custom (aux-leaf) channels outside the alphabet",
 		"canonical state drops signatures/nonces/txids (functions of the kept fields); the signature oracle runs on transitions")
 	if code := run.Finish(cov); code != 0 {
 		os.Exit(code)
